@@ -23,6 +23,7 @@ TAN_HDR = {'ctype1': 'RA---TAN', 'ctype2': 'DEC--TAN', 'crpix1': 1024.5, 'crpix2
            'naxis1': 2048, 'naxis2': 2048}
 TPV_HDR = dict(TAN_HDR, ctype1='RA---TPV', ctype2='DEC--TPV', pv1_0=-0.009, pv1_1=1.02, pv1_2=-0.013, pv1_4=-0.029, pv1_5=0.021,
                pv1_6=-0.015, pv1_7=0.010, pv2_0=0.002, pv2_1=0.999, pv2_2=-0.009, pv2_4=-0.019, pv2_5=-0.014, pv2_6=0.009, pv2_7=-0.021)
+from esutil import integrate, random
 SIP_HDR = dict(TAN_HDR, ctype1='RA---TAN-SIP', ctype2='DEC--TAN-SIP', a_order=2, b_order=2, a_2_0=2.0e-06, a_1_1=-1.0e-06, a_0_2=3.0e-06,
                b_2_0=-2.0e-06, b_1_1=1.5e-06, b_0_2=1.0e-06, ap_order=2, bp_order=2, ap_2_0=-2.0e-06, ap_1_1=1.0e-06, ap_0_2=-3.0e-06,
                bp_2_0=2.0e-06, bp_1_1=-1.5e-06, bp_0_2=-1.0e-06)
@@ -36,11 +37,13 @@ REC = ("rec",)
 D = []
 
 
-def drv(name, fam, src, gen, nd=(1, 0, 2), dt=NUM, exempt=None, func=None, valuation="", slow=False, n=8, needs=None):
-    """needs: inventory key ("alias:qualname", see c15_translate) of a callable that exists only in some trees (a helper
+def drv(name, fam, src, gen, nd=(1, 0, 2), dt=NUM, exempt=None, func=None, valuation="", slow=False, n=8, needs=None, static_skip=None):
+    """static_skip: reason why NO static obligation is generated for this driver (known imprecision of the extractor); the driver is
+    then covered by the dynamic run only, and says so in the evidence.
+    needs: inventory key ("alias:qualname", see c15_translate) of a callable that exists only in some trees (a helper
     introduced by a fix: commit); the driver is skipped, with a note, on a tree that does not have it"""
     D.append(dict(name=name, fam=fam, src=src.strip("\n") + "\n", gen=gen, nd=nd, dt=dt, exempt=exempt or {},
-                  func=func or name, valuation=valuation, slow=slow, n=n, needs=needs))
+                  func=func or name, valuation=valuation, slow=slow, n=n, needs=needs, static_skip=static_skip))
 
 
 # ------------------------------------------------------------------ record files (binary + text)
@@ -381,5 +384,59 @@ drv("htm_cylmatch", "htm",
     "def f(ra1, dec1, z1, ra2, dec2, z2):\n    h = htm.HTM(7)\n    return h.cylmatch(ra1, dec1, z1, ra2, dec2, z2, 2.0, 0.5)\n",
     {"ra1": "cra", "dec1": "cdec", "z1": "z", "ra2": "cra", "dec2": "cdec", "z2": "z"}, nd=(1,), func="HTM.cylmatch")
 drv("htm_gmean", "htm", "def f(r1, r2):\n    return htm.htm.gmean(r1, r2, 2)\n", {"r1": "small", "r2": "w"}, func="htm.gmean")
+
+# ------------------------------------------------------------------ third round: option completeness of the coordinate helpers
+drv("eq2xyz_f4", "coords", "def f(ra, dec):\n    return coords.eq2xyz(ra, dec, dtype='f4')\n", {"ra": "ra", "dec": "dec"}, func="eq2xyz",
+    valuation="dtype='f4'", n=4)
+drv("eq2xyz_f4_rad_stomp", "coords", "def f(ra, dec):\n    return coords.eq2xyz(ra, dec, dtype='f4', units='rad', stomp=True)\n",
+    {"ra": "unit", "dec": "unit"}, dt=("f4", "f8", "i4"), func="eq2xyz", valuation="dtype='f4', units=rad, stomp=True", n=4)
+drv("sphdist_rad_deg", "coords", "def f(ra1, dec1, ra2, dec2):\n    return coords.sphdist(ra1, dec1, ra2, dec2, units=['rad', 'deg'])\n",
+    {"ra1": "unit", "dec1": "unit", "ra2": "unit", "dec2": "unit"}, func="sphdist", valuation="units rad/deg")
+drv("sphdist_tuple_units", "coords", "def f(ra1, dec1, ra2, dec2):\n    return coords.sphdist(ra1, dec1, ra2, dec2, units=('deg', 'deg'))\n",
+    {"ra1": "ra", "dec1": "dec", "ra2": "ra", "dec2": "dec"}, func="sphdist", valuation="units given as a tuple")
+for fn in ("eq2gal", "gal2eq", "eq2ec"):
+    drv(fn + "_b1950_f4", "coords", "def f(a, b):\n    return coords.%s(a, b, b1950=True, dtype='f4')\n" % fn, {"a": "ra", "b": "dec"}, func=fn,
+        valuation="b1950=True, dtype='f4'", n=4)
+drv("sdss2eq_f4", "coords", "def f(clambda, ceta):\n    return coords.sdss2eq(clambda, ceta, dtype='f4')\n", {"clambda": "dec", "ceta": "eta"},
+    func="sdss2eq", valuation="dtype='f4'")
+drv("shiftra_nowrap", "coords", "def f(ra):\n    return coords.shiftra(ra, shift=-30.0, wrap=False)\n", {"ra": "ra"}, func="shiftra", valuation="shift<0, wrap=False")
+drv("randcap_array_rad", "coords",
+    "def f(ra, dec, rad):\n    return coords.randcap(5, ra, dec, rad, rng=np.random.RandomState(3))\n",
+    {"ra": "ra", "dec": "dec", "rad": "small"}, nd=(0,), func="randcap", valuation="radius given as a 0-d array")
+
+# ------------------------------------------------------------------ integrate
+drv("qgauss", "integrate", "def f(x, y):\n    return integrate.qgauss(x, y, 10)\n", {"x": "sx", "y": "x"}, nd=(1,), func="integrate.qgauss")
+drv("QGauss_integrate_data", "integrate", "def f(xvals, yvals):\n    q = integrate.QGauss(8)\n    return q.integrate(xvals, yvals)\n",
+    {"xvals": "sx", "yvals": "x"}, nd=(1,), func="QGauss.integrate", valuation="data")
+drv("QGauss_integrate_data_npts", "integrate",
+    "def f(xvals, yvals):\n    q = integrate.QGauss(8)\n    return q.integrate_data(xvals, yvals, npts=12)\n",
+    {"xvals": "sx", "yvals": "x"}, nd=(1,), func="QGauss.integrate_data", valuation="npts= given (re-setup)")
+drv("QGauss_integrate_func", "integrate", "def f(xvals):\n    q = integrate.QGauss(8)\n    return q.integrate(xvals, np.cos)\n",
+    {"xvals": "sx"}, nd=(1,), func="QGauss.integrate", valuation="function")
+drv("QGauss_integrate_func_direct", "integrate", "def f(xvals):\n    q = integrate.QGauss(8)\n    return q.integrate_func(xvals, np.cos, npts=6)\n",
+    {"xvals": "sx"}, nd=(1,), func="QGauss.integrate_func", valuation="npts= given")
+drv("QGauss_gaussfunc", "integrate", "def f(xvals):\n    q = integrate.QGauss(8)\n    return q.gaussfunc(xvals)\n", {"xvals": "x"}, func="QGauss.gaussfunc")
+
+# ------------------------------------------------------------------ random generators
+drv("Generator_points", "random",
+    "def f(pofx, x):\n    g = random.Generator(pofx, x=x, nx=50, seed=3)\n    return g.sample(20)\n", {"pofx": "pofx", "x": "grid"}, nd=(1,), dt=FLT,
+    func="random.Generator", valuation="pofx, x arrays; default method", static_skip="the extractor cannot fold `isinstance(pofx, FunctionType)`: it keeps the branch that CALLS pofx with the x grid as operand")
+drv("Generator_points_cut", "random",
+    "def f(pofx, x):\n    g = random.Generator(pofx, x=x, nx=50, method='cut', seed=3)\n    return g.sample(20)\n", {"pofx": "pofx", "x": "grid"},
+    nd=(1,), dt=FLT, func="random.Generator", valuation="pofx, x arrays; method=cut", static_skip="the extractor cannot fold `isinstance(pofx, FunctionType)`: it keeps the branch that CALLS pofx with the x grid as operand")
+for cls in ("Normal", "LogNormal"):
+    for m in ("lnprob", "prob"):
+        drv("%s_%s" % (cls, m), "random", "def f(x):\n    d = random.%s(1.5, 0.4)\n    return d.%s(x)\n" % (cls, m), {"x": "small"},
+            func="random.%s.%s" % (cls, m))
+drv("NormalND_lnprob", "random", "def f(mean, sigma, pos):\n    d = random.NormalND(mean, sigma)\n    return d.lnprob(pos)\n",
+    {"mean": "mean3", "sigma": "diag", "pos": "pos3"}, nd=(1, 0), func="random.NormalND.lnprob")
+drv("NormalND_sample", "random", "def f(mean, sigma):\n    np.random.seed(4)\n    d = random.NormalND(mean, sigma)\n    return d.sample(5), d.get_max()\n",
+    {"mean": "mean3", "sigma": "diag"}, nd=(1,), func="random.NormalND.sample")
+drv("CholeskySampler", "random",
+    "def f(mean, cov):\n    np.random.seed(4)\n    c = random.CholeskySampler(mean, cov)\n    return c.sample(4)\n", {"mean": "mean3", "cov": "cov"},
+    nd=(2,), dt=("f8", "f4", "i8"), func="random.CholeskySampler")
+drv("cholesky_sample", "random",
+    "def f(means, cov):\n    np.random.seed(4)\n    return random.cholesky_sample(cov, 4, means=means)\n", {"means": "mean3", "cov": "cov"},
+    nd=(2,), dt=("f8", "f4", "i8"), func="random.cholesky_sample")
 
 DRIVERS = D
